@@ -1473,6 +1473,9 @@ impl TypeChecker {
                         elaboration_kind: "unit definition",
                     })?;
 
+                // A unit is a quantity: its defining expression must have a dimension type
+                self.enforce_dtype(&type_deduced, expr.full_span())?;
+
                 for (name, _) in decorator::name_and_aliases(identifier, decorators) {
                     self.env.add(
                         name.to_compact_string(),
